@@ -27,6 +27,7 @@ RULE += ("  " + 'Also (round 6): aioftp client whose server hangs up without a r
 RULE += ("  " + 'Also: the whole login and further commands in one burst with a suspending user manager; the connection ending inside the PASS line.')
 RULE += ("  " + 'Also (round 7): a server that asks for the account before (332, then 331) or after the password.')
 RULE += ("  " + 'Also (round 8): a PASS line beyond the stream limit arriving in two pieces.')
+RULE += ("  " + 'Also (round 9): a client whose encoding cannot carry the password it is given.')
 ASSUMPTIONS = ["passwords with CR/LF are not carriable by the line protocol and are excluded; blanks at the ends are sent (the server "
                "strips them, so such logins are rejected) and searched for without them",
                "all loggers propagate to the root logger (true for aioftp.client / aioftp.server)"]
